@@ -24,6 +24,19 @@ Definition flowstat_tree (f : flowstat) : tree :=
   T KFlowStats [VN (48 + sumN (map glen kids)); VN (fs_table f); VN 0; VN (fs_dsec f); VN (fs_dnsec f); VN (fs_prio f); VN (fs_idle f); VN (fs_hard f);
                 VN (fs_flags f); VN (fs_cookie f); VN (fs_pkts f); VN (fs_bytes f)] kids.
 
+(* hello elements: a version bitmap with any number of 32-bit words, or an element of another
+   type (which a receiver must skip); both are padded with zeros to a multiple of 8 bytes *)
+Inductive helem := HBitmap (ws : list N) | HOther (ty : N) (body : list byte).
+Definition helem_bitmap_tree (ws : list N) : tree :=
+  T KHelloElemBitmap [VN 1; VN (4 + 4 * N.of_nat (length ws)); VB (List.concat (map be32 ws))] [].
+Definition helem_raw (e : helem) : list tree :=
+  match e with
+  | HBitmap ws => [helem_bitmap_tree ws; T KRaw [VB (zeros (pad8 (4 + 4 * length ws)))] []]
+  | HOther ty body => [T KRaw [VB (be16 ty ++ be16 (4 + N.of_nat (length body)) ++ body ++ zeros (pad8 (4 + length body)))] []]
+  end.
+Definition helem_view (e : helem) : list tree :=
+  match e with HBitmap ws => [helem_bitmap_tree ws] | HOther _ _ => [] end.
+
 Inductive swrec :=
 | SHeaderOnly (ty : N)                                   (* echo reply without body, barrier reply *)
 | SGetConfigReply (flags miss : N)
@@ -36,7 +49,8 @@ Inductive swrec :=
 | SMpDesc (flags : N) (mfr hw sw serial dp : list byte)
 | SMpAggregate (flags pkts bytes flows : N)
 | SMpFlow (flags : N) (recs : list flowstat)
-| STlvReply (space fields : N) (maps : list (N * N * N * N)).
+| STlvReply (space fields : N) (maps : list (N * N * N * N))
+| SHello (elems : list helem).
 
 Definition sw_raw (xid : N) (s : swrec) : tree :=
   match s with
@@ -57,6 +71,7 @@ Definition sw_raw (xid : N) (s : swrec) : tree :=
   | STlvReply sp fl maps =>
     T KVendor (hdr 4 xid ++ [VN NXID; VN 26])
       [T KTlvTableReply [VN sp; VN fl] (map (fun p => let '(c, t, l, i) := p in T KTlvMap [VN c; VN t; VN l; VN i] []) maps)]
+  | SHello es => T KHello (hdr 0 xid) (flat_map helem_raw es)
   end.
 
 (* the value with its length fields filled in *)
@@ -64,7 +79,8 @@ Definition sw_tree (xid : N) (s : swrec) : tree := norm (sw_raw xid s).
 
 (* what the parser hands back: the value that was written, as a wire reader sees it - inside a
    flow-statistics record the instructions in their wire view ([canon]: a note's padding belongs
-   to the note); a packet-in without packet data carries the zero Ethernet value *)
+   to the note); a packet-in without packet data carries the zero Ethernet value; a hello keeps
+   its version bitmaps and skips every other element *)
 Definition flowstat_view (f : flowstat) : tree :=
   let L := 48 + glen (build_match (fs_match f)) + sumN (map glen (map build_i (fs_instrs f))) in
   T KFlowStats [VN L; VN (fs_table f); VN 0; VN (fs_dsec f); VN (fs_dnsec f); VN (fs_prio f); VN (fs_idle f); VN (fs_hard f);
@@ -77,5 +93,7 @@ Definition sw_view (xid : N) (s : swrec) : tree :=
     match sw_tree xid s with T k vs kids => T k vs (kids ++ [T KEth [VB []; VB []] [T KU16 [VN 0] []]]) end
   | SMpFlow fl recs =>
     T KMultipartReply ([VN 4; VN 19; VN (16 + sumN (map glen (map flowstat_view recs))); VN xid] ++ [VN 1; VN fl]) (map flowstat_view recs)
+  | SHello es =>
+    match sw_tree xid s with T k vs _ => T k vs (flat_map helem_view es) end
   | _ => sw_tree xid s
   end.
